@@ -15,7 +15,7 @@
     PathFS step by step, GetAttr through every bound fid after each change, and
     the server's path tree is dumped and compared, childRefs against
     childRefNames included): C08_tree_inv, C08_coherent, and C08_notified beyond
-    the statement below; that notifyDelete marks the whole subtree of the victim. *)
+    the statement below (C08_notified_partial). *)
 From Coq Require Import List Arith Bool ZArith.
 From P9V Require Import Refs.Model Refs.PathFS Refs.Cases Refs.RefProofs Refs.FenceProofs.
 Import ListNotations.
@@ -49,6 +49,18 @@ Theorem C08_fenced_link_partial : forall B bstep s r t nm,
 Proof. exact fenced_link_body. Qed.
 Print Assumptions C08_fenced_link_partial.
 
+(** C08_fenced, completeness of the marking: after markChildDeleted (Tunlinkat, Tremove, rename over an
+    existing name) every path node at or below the victim - [reach]: along childNodes edges, in the tree
+    from which the victim entry has been detached - carries the deleted mark, and every fidRef whose node
+    is there is fenced.  No assumption on the shape of the node graph (the fuel, #nodes + 1, covers every
+    simple path; [k <= #nodes]). *)
+Theorem C08_fenced_subtree : forall B bstep n nm v k r s,
+  alookup Nat.eqb nm (pn_nodes (get_node B s n)) = Some v -> v < length (s_nodes B s) ->
+  reach B (detached B bstep n nm s) v (fr_node (get_ref B s r)) k -> k <= length (s_nodes B s) ->
+  is_deleted B (mark_child_deleted B bstep n nm s) r = true.
+Proof. exact fenced_below_victim. Qed.
+Print Assumptions C08_fenced_subtree.
+
 Theorem C08_unlinked_name_has_no_node : forall B bstep n nm s,
   n < length (s_nodes B s) ->
   alookup Nat.eqb nm (pn_nodes (get_node B (mark_child_deleted B bstep n nm s) n)) = None.
@@ -66,8 +78,8 @@ Print Assumptions C08_later_binding_fresh.
     name.  Missing: that these are exactly the refs at the entry, the refs below it, parents first. *)
 Theorem C08_notified_partial : forall B bstep tgt newnm r p s,
   fr_parent (get_ref B s r) = Some p ->
-  exists s3, hd_error (s_log B (rename_cb B bstep tgt newnm r s)) =
-             Some (BRenamed (fr_file (get_ref B s3 r)) (fr_file (get_ref B s3 tgt)) newnm).
+  exists s2 s3, rename_cb B bstep tgt newnm r s = snd (decref_ B bstep p s3) /\
+                hd_error (s_log B s3) = Some (BRenamed (fr_file (get_ref B s2 r)) (fr_file (get_ref B s2 tgt)) newnm).
 Proof. exact rename_cb_notifies. Qed.
 Print Assumptions C08_notified_partial.
 
